@@ -19,7 +19,7 @@ RULE = ('seeded generator: arrays and cubes 1..14 per side (even/odd/non-square)
 ASSUMPTIONS = ['binary-shape comparisons skip pixels whose exactly computed edge margin is < 1e-9 (ties are not evidence)']
 PLAN = {'quick': {'gen': 8}, 'thorough': {'gen': 16, 'tests': 1, 'docs': 1}}
 REQUIRED_BUCKETS = ['pad:2d', 'pad:cube', 'pad:nonsquare-cube', 'pad:grow', 'pad:shrink', 'pad:mixed',
-                    'pad:parity-change', 'subarray', 'window', 'boundary', 'slice_offset', 'centroid', 'rebin',
+                    'pad:parity-change', 'subarray', 'window', 'boundary', 'boundary:signed-frame', 'slice_offset', 'centroid', 'rebin',
                     'rebin:cube', 'rebin:small-int', 'mesh', 'shape:circle', 'shape:hexagon', 'shape:rectangle', 'shape:spider', 'shape:sequence', 'shape:binary',
                     'shape:antialias', 'hexseg', 'hexseg:gap0', 'hexseg:drop', 'hexseg:drop-repeated', 'rescale:origin', 'dtype:reduced-precision']
 REQUIRED_ANCHORS = ['probe:pad', 'anchor:mesh', 'anchor:hex_to_rc', 'anchor:slice_offset', 'anchor:boundary_slice']
@@ -313,6 +313,15 @@ def workload(ctx, lentil):
         if not (x > 0).any():
             x[int(rng.integers(0, s[0])), int(rng.integers(0, s[1]))] = 0.5
         thr = 0 if rng.random() < 0.6 else float(rng.uniform(0, x.max() * 0.9))
+        if i % 5 == 2:
+            # a background-subtracted frame / an OPD map: negative samples (and NaN) around the region of interest are not LARGER
+            # than the threshold
+            x = x - (x == 0) * rng.uniform(0.01, 0.5, size=s)
+            if i % 10 == 2:
+                x[x < 0] *= (rng.random(int((x < 0).sum())) < 0.7)       # a mix of negative and exactly zero background
+            if i % 20 == 7 and (x <= 0).any():
+                x[tuple(np.argwhere(x <= 0)[0])] = np.nan
+            ctx.bucket('boundary:signed-frame')
         desc = {'op': 'boundary', 'shape': list(s), 'thr': thr, 'x': probe.fp_array(x)[:10]}
         ctx.case(desc, ['boundary'], nontrivial=x.size > 1)
         U.boundary(x, thr)        # probe decides
@@ -330,7 +339,7 @@ def workload(ctx, lentil):
         ren = rm.render([(x[sl], off)], s).real
         box = np.zeros(s)
         box[sl] = x[sl]
-        ctx.check(np.array_equal(ren, box), 'slice_offset=render', 'slice_offset|render',
+        ctx.check(np.array_equal(ren, box, equal_nan=True), 'slice_offset=render', 'slice_offset|render',
                   'a bounding slice rendered at its slice_offset does not land on the pixels it was cut from',
                   dict(desc, offset=[int(v) for v in off], slice=str(sl)))
         ctx.check(tuple(H.slice_offset(Ellipsis, s)) == (0, 0), 'slice_offset=render', 'slice_offset|ellipsis',
